@@ -63,9 +63,14 @@ def execute(scen, strict, chooser, alphabet, fixed=None):
                 loop = asyncio.get_running_loop()
                 w = run.world
                 now = math.ceil(max(loop.time(), 1e-12) / f) if scen.get("rt_factor") else 0
-                t = {"now+1": now + 1, "now+2": now + 2, "until-1": w.until - 1, "until": w.until,
-                     "until+3": w.until + 3}[target]
-                if scen.get("rt_factor") and target.startswith(("now", "until-1")) and t <= now:
+                t = {"now": now, "now+1": now + 1, "now+2": now + 2, "until-1": w.until - 1,
+                     "until": w.until, "until+3": w.until + 3}[target]
+                # "now" = the tick that is running (its due time rt_factor*t is still ahead)
+                if scen.get("rt_factor") and target == "now" and not (
+                        t * f > loop.time() + 1e-9 and t < w.until):
+                    run.ev("EV", stub.sid, t, "skipped-not-future")
+                    return
+                if scen.get("rt_factor") and target.startswith(("now+", "until-1")) and t <= now:
                     run.ev("EV", stub.sid, t, "skipped-not-future")
                     return
                 nlog = len(run.logs)
@@ -146,6 +151,8 @@ def judge(scen, strict, run, res, viol, lats):
     for ev in run.trace:
         if ev[0] == "EV":
             _, sid, t, outcome = ev
+            if outcome == "skipped-not-future":
+                continue          # not injected at all
             if f is None:
                 if outcome != "error:SimulationError":
                     add("set-event-outside-real-time", f"set_event({t}) outside real-time mode -> {outcome}")
@@ -231,7 +238,7 @@ def pacing_scenarios(tier):
 def event_scenarios(tier):
     out = []
     until = 4
-    targets = ["now+1", "now+2", "until-1", "until", "until+3"]
+    targets = ["now+1", "now+2", "until-1", "until", "until+3", "now"]
     grid = [0.25 + 0.5 * i for i in range(0, 2 * until - 1)]
     sims = [E("A", set_events=True, emit_default=0), E("B")]
     conns = [C("A", "B", "eo", "ti")]
@@ -239,7 +246,7 @@ def event_scenarios(tier):
         for tg in targets:
             out.append((f"rt_ev_{at}_{tg}", dict(rt_factor=1, until=until, sims=sims, conns=conns,
                                                  events=[("A", at, tg)]), [0]))
-    pairs = list(itertools.product(grid[::2], targets[:4]))
+    pairs = list(itertools.product(grid[::2], targets[:4] + ["now"]))
     for (a1, t1), (a2, t2) in itertools.combinations(pairs, 2):
         if a1 == a2 and t1 == t2:
             continue
@@ -250,7 +257,7 @@ def event_scenarios(tier):
                          events=[("A", a1, t1), ("A", a2, t2)]), [0]))
     # with a self-stepping target and latencies
     for at in grid[::2]:
-        for tg in targets[:3]:
+        for tg in targets[:3] + ["now"]:
             out.append((f"rt_evT_{at}_{tg}", dict(rt_factor=1, until=until,
                                                   sims=[T("A", 2, set_events=True)], conns=[],
                                                   events=[("A", at, tg)]), [0, 1.5]))
